@@ -789,9 +789,11 @@ func (f *Flooder) cleanup() {
 	f.cleanupNodeInfoCache(now, expiry)
 	f.nodeInfoMu.Unlock()
 
-	// Cleanup sleep command cache
+	// Cleanup sleep command cache. A signed command stays valid for up to twice the
+	// timestamp window on the receiver's clock (stamped one window ahead, replayed one
+	// window late), so it must be remembered at least that long.
 	f.sleepCmdMu.Lock()
-	f.cleanupSleepCmdCache(now, expiry)
+	f.cleanupSleepCmdCache(now, f.sleepCmdCacheTTL())
 	f.sleepCmdMu.Unlock()
 }
 
@@ -841,6 +843,16 @@ func (f *Flooder) cleanupNodeInfoCache(now time.Time, expiry time.Duration) {
 			break
 		}
 	}
+}
+
+// sleepCmdCacheTTL is how long a sleep/wake command is remembered for
+// de-duplication: SeenCacheTTL, but never less than twice the timestamp window.
+func (f *Flooder) sleepCmdCacheTTL() time.Duration {
+	ttl := f.cfg.SeenCacheTTL
+	if min := 2 * f.timestampWindow; ttl < min {
+		ttl = min
+	}
+	return ttl
 }
 
 // cleanupSleepCmdCache removes expired entries from the sleep command cache.
